@@ -235,3 +235,82 @@ contract(OF, 'OscScore.add', props=('C07', 'C10'), params={'self': 'self', 'bndl
          hooks={'getattr': sc_getattr, 'binop': sc_binop, 'construct': sc_construct},
          policies={'OscScore._process_bndl_time': process_time},
          class_modules={'OscScore': OF, 'TimeThread': 'sc3/base/stream.py'}, native=False)
+
+
+# ---- OscScore.finish ---------------------------------------------------------------------------------------------------------
+def fin_add(eng, selfv, args, kwargs, st, node):
+    st.trace.append(('score-add', tuple(args)))
+    return [(st, NONE)]
+
+
+NENT = _z3.Int('score.entries')
+
+
+def fin_iterate(eng, obj, st, node):
+    if obj.k == 'obj' and obj.oid == 'self._scoreq':
+        # the queue iterates in its (stable priority) order: TaskQueue.__iter__, C09
+        def get(e_, i, s_):
+            return vtuple([V('any', _z3.Const('entry.time', VV_any())), V('obj', oid='entry', extra={'index': i})])
+        return V('seq', extra={'len': NENT, 'facts': [NENT >= 0], 'the-score-queue': True, 'get': get})
+    return None
+
+
+def fin_getattr(eng, obj, name, st, node):
+    if obj.k == 'obj' and obj.oid == 'entry' and name in ('bndl', 'msg'):
+        return [(st, V('obj', oid='entry.' + name, extra={'index': obj.extra['index']}))]
+    return sc_getattr(eng, obj, name, st, node)
+
+
+def fin_since(trace):
+    idx = max([i for i, e in enumerate(trace) if e[0] == 'loop-head'] or [-1])
+    return trace[idx + 1:] if idx >= 0 else None
+
+
+def fin_pass(c, L):
+    ev = fin_since(c.trace)
+    if not ev or L.phase != 'after':
+        return _z3.BoolVal(True)
+    la = [e for e in ev if e[0] == 'list-append']
+    ra = [e for e in ev if e[0] == 'raw-extend']
+    if len(la) != 1 or len(ra) != 1 or [e for e in ev if e[0] == 'score-add']:
+        return _z3.BoolVal(False)
+    b, m = la[0][1], ra[0][1]
+    if not (b.k == 'obj' and b.oid == 'entry.bndl' and m.k == 'obj' and m.oid == 'entry.msg'):
+        return _z3.BoolVal(False)
+    return _z3.And(b.extra['index'] == L.i - 1, m.extra['index'] == L.i - 1)      # entry i: its bundle to the list, its bytes to the raw score
+
+
+def fin_over(c, seq, k, elem):
+    return _z3.BoolVal(bool(seq.k == 'seq' and seq.extra.get('the-score-queue'))), _z3.BoolVal(True)
+
+
+def finish_post(c):
+    t = c.trace
+    adds = [e for e in t if e[0] == 'score-add']
+    heads = [i for i, e in enumerate(t) if e[0] == 'loop-head']
+    was = c.pre.self._finished
+    if not adds and not heads:
+        return _z3.And(was, c.post.self._finished,
+                       _z3.BoolVal(not [e for e in t if e[0] in ('list-append', 'raw-extend')]))       # idempotent
+    if len(adds) != 1 or not heads or t.index(adds[0]) > heads[0]:
+        return _z3.BoolVal(False)
+    a = adds[0][1]
+    ok = len(a) == 1 and a[0].k == 'list' and a[0].items is not None and len(a[0].items) == 2
+    if not ok:
+        return _z3.BoolVal(False)
+    when, cmd = a[0].items
+    dummy = cmd.k == 'list' and cmd.items is not None and len(cmd.items) >= 1 and cmd.items[0].k == 'str'    # some command (which one is free)
+    in_main = _z3.Const('main.current_tt#id', Any) == _z3.Const('main.main_tt#id', Any)
+    tail = to_real(c._params['tailtime'])
+    now = _z3.Real('main.current_tt._seconds')
+    return _z3.And(_z3.Not(was), c.post.self._finished, _z3.BoolVal(bool(dummy)),
+                   # ONE closing command at the tail time - absolute when called from outside a routine
+                   to_real(when) == _z3.If(in_main, tail + now, tail))
+
+
+contract(OF, 'OscScore.finish', props=('C07', 'C10'), params={'self': 'self', 'tailtime': 'real'},
+         ensures=[('idempotent;one-closing-command-at-the-tail-time,then-every-queue-entry-in-queue-order;finished', finish_post)],
+         loops={0: _Loop(inv=fin_pass, over=fin_over, kinds={'_': 'any', 'entry': 'obj'})},
+         modifies=[('self', '_finished')], fields=SCORE_FIELDS,
+         hooks={'getattr': fin_getattr, 'iterate': fin_iterate}, policies={'OscScore.add': fin_add},
+         class_modules={'OscScore': OF, 'TimeThread': 'sc3/base/stream.py'}, native=False)
